@@ -50,6 +50,8 @@ extern char *mpt_array_string(MPT_STRUCT(array) *arr)
 	if (!(sep = mpt_array_slice(arr, len, 1))) {
 		return 0;
 	}
+	/* slice may have replaced the buffer */
+	buf = arr->_buf;
 	str = (char *) (buf + 1);
 	*sep = '\0';
 	
